@@ -1099,7 +1099,7 @@ func (s *SecureChannel) SendRequestWithTimeout(ctx context.Context, req ua.Reque
 	// counted after the instance had been picked then a renewal could slip in
 	// between and the request would be sent with the sequence number and the
 	// security token of the instance which was just replaced.
-	s.reqLocker.waitIfLockThen(func() { s.pendingReq.Add(1) })
+	s.reqLocker.waitIfLockThen(func() { verifhook.Point("sc.req.gateOpen"); s.pendingReq.Add(1) })
 	verifhook.Point("sc.req.pendingAdded")
 	active, err := s.getActiveChannelInstance()
 	if err != nil {
